@@ -221,6 +221,24 @@ class NS:
         return run_body(self)
 
 
+@labtech.task(cache=ArmedPickleCache())
+class NSP:
+    """Armed pickle cache + a post_init that rewrites a parameter into canonical form (the cache_key was computed
+    before that, so a key recomputed later differs)."""
+    name: str
+    one: Any = None
+    many: Any = ()
+    named: Any = None
+    p: Any = None
+
+    def post_init(self):
+        if isinstance(self.p, str):
+            object.__setattr__(self, 'p', self.p.strip().lower())
+
+    def run(self):
+        return run_body(self)
+
+
 @labtech.task(cache=ArmedJsonCache())
 class NSJ:
     name: str
@@ -233,8 +251,8 @@ class NSJ:
         return run_body(self)
 
 
-TYPES = {c.__name__: c for c in (NA, NB, NC, ND, NN, NJ, NF, NP, NAX, NS, NSJ, NM, NK, NT, NE, NZ)}
-MAX_PARALLEL = {'NZ': None, 'NE': None, 'NT': None, 'NM': 2, 'NK': 1, 'NS': None, 'NSJ': None, 'NA': None, 'NB': 1, 'NC': 2, 'ND': 3, 'NN': None, 'NJ': None, 'NF': None, 'NP': None, 'NAX': None}
+TYPES = {c.__name__: c for c in (NA, NB, NC, ND, NN, NJ, NF, NP, NAX, NS, NSJ, NSP, NM, NK, NT, NE, NZ)}
+MAX_PARALLEL = {'NSP': None, 'NZ': None, 'NE': None, 'NT': None, 'NM': 2, 'NK': 1, 'NS': None, 'NSJ': None, 'NA': None, 'NB': 1, 'NC': 2, 'ND': 3, 'NN': None, 'NJ': None, 'NF': None, 'NP': None, 'NAX': None}
 UNCACHED = {'NN', 'NM'}
 
 
